@@ -225,6 +225,25 @@ fn case_dag(rng: &mut Rng, rep: &mut Report, thorough: bool) {
             }
         }
     }
+    // atoms as ROOTS through the cache the pairs were memoised in: small integers and heap atoms
+    // whose allocator index equals the index of a memoised pair must still hash as atoms
+    let npairs = a.pair_count() as u32;
+    for _ in 0..6 {
+        let k = rng.below(u64::from(npairs) + 3) as u32;
+        let small = a.new_small_number(k).unwrap();
+        let want = sha256(&[&[1u8], &vcore::ints::minimal_be_u64(u64::from(k))]);
+        check(rep, "dag/atom-root-small-through-used-cache", tree_hash_cached(&a, small, &mut cache).as_ref(), &want, || {
+            json!({"kind": "atom-root", "value": k, "pairs_in_allocator": npairs})
+        });
+    }
+    for p in pool.iter().take(8) {
+        if let SExp::Atom = a.sexp(*p) {
+            let want = sha256(&[&[1u8], a.atom(*p).as_ref()]);
+            check(rep, "dag/atom-root-heap-through-used-cache", tree_hash_cached(&a, *p, &mut cache).as_ref(), &want, || {
+                json!({"kind": "atom-root-heap", "atom": hx(a.atom(*p).as_ref())})
+            });
+        }
+    }
     rep.add("memoised_nodes_observed", memoised);
     rep.count("dag_histories");
     // back-referenced serialization of the top root
@@ -297,6 +316,24 @@ fn case_history(rng: &mut Rng, rep: &mut Report) {
                 rep.violation("treehash-cache-entry-wrong", "TreeCache::get holds a wrong hash", json!({"tree": t.show()}));
             }
         }
+    }
+    let npairs = a.pair_count() as u32;
+    for _ in 0..6 {
+        let k = rng.below(u64::from(npairs) + 3) as u32;
+        let small = a.new_small_number(k).unwrap();
+        let want = sha256(&[&[1u8], &vcore::ints::minimal_be_u64(u64::from(k))]);
+        check(rep, "history/atom-root-small-through-used-cache", tree_hash_cached(&a, small, &mut cache).as_ref(), &want, || {
+            json!({"kind": "atom-root", "value": k, "pairs_in_allocator": npairs})
+        });
+    }
+    for j in 0..4u8 {
+        // heap atoms created after the pairs: their atom index is small, like the memoised pairs' indices
+        let bytes = vec![0x80 | j; 5 + j as usize];
+        let n = a.new_atom(&bytes).unwrap();
+        let want = sha256(&[&[1u8], &bytes]);
+        check(rep, "history/atom-root-heap-through-used-cache", tree_hash_cached(&a, n, &mut cache).as_ref(), &want, || {
+            json!({"kind": "atom-root-heap", "atom": hx(&bytes)})
+        });
     }
     rep.add("memoised_nodes_observed", memoised);
     rep.count("cache_histories");
